@@ -256,8 +256,17 @@ func clientObs(r *clientRig, method string, b []byte, cuts []int) string {
 	closed := r.conn != nil && r.conn.Closed()
 	pooled := r.c.HC.ConnPoolState().PoolConnNum
 	r.c.HC.CloseIdleConnections()
+	if !connStateObserved {
+		// bytes behind a complete response (an unsolicited second message): whether the client keeps or
+		// closes the connection is outside the statement (identical response object or identical error)
+		// and may depend on whether those bytes had already arrived
+		return o.String()
+	}
 	return fmt.Sprintf("%s\nconnClosedByClient=%v pooled=%d", o.String(), closed, pooled)
 }
+
+// connStateObserved: compare the keep-alive decision too (well-formed streams only).
+var connStateObserved = true
 
 func TestC02Client(t *testing.T) {
 	rec := ev.New("client")
@@ -288,6 +297,8 @@ func TestC02Client(t *testing.T) {
 				muts = []string{"trailing-second-response"}
 			}
 		}
+		connStateObserved = len(muts) == 0 // hostile streams may carry bytes behind the complete response
+		defer func() { connStateObserved = true }()
 		whole := clientObs(rig(stream), method, b, nil)
 		segs := twoWayCuts(len(b), marks)
 		if bw := bytewise(len(b)); bw != nil {
